@@ -269,6 +269,16 @@ func (e *Exec) newRef(st *State, hint string) *Term {
 // allocObj allocates a zero-initialised object of type ty on the heap.
 func (e *Exec) allocObj(st *State, ty types.Type, hint string) *Term {
 	r := e.newRef(st, hint)
+	if a, ok := ty.Underlying().(*types.Array); ok && isStructT(a.Elem()) {
+		// elements are addressed as elem(r, i) in the element type's field arrays; zero-initialise the known few
+		saved := e.frameOff
+		e.frameOff = true
+		for i := int64(0); i < a.Len() && i < 8; i++ {
+			e.storeObj(st, e.elemRef(r, e.c.Int(i)), a.Elem(), e.tm.Zero(a.Elem()))
+		}
+		e.frameOff = saved
+		return r
+	}
 	saved := e.frameOff
 	e.frameOff = true
 	e.storeObj(st, r, ty, e.tm.Zero(ty))
